@@ -169,6 +169,44 @@ theorem season_year_partial (year : Int) (k : Fin 4) (hy : -1000 ≤ year ∧ ye
       fin_cases k <;> simp only [Spec.SunEvents.table27B] at st <;>
         norm_num [abs_of_pos, abs_of_neg] at st <;> constructor <;> linarith [st.1, st.2]
 
+/-- Direction of the correction: for a solar longitude in [0°, 360°) and a season index 0…3, the
+    angle whose sine is taken is exactly `k·90° − λ`; the correction is POSITIVE (the epoch moves
+    later) when the Sun is up to 180° short of the target longitude and NEGATIVE when it is up to 180°
+    past it, and it is the same for `λ` and its antipode up to sign (`sin` is odd about 180°) — which
+    is why the loop condition alone cannot tell `k·90°` from `k·90° + 180°`. -/
+theorem season_corr_sign (k : Int) (lon : ℝ) (hk : 0 ≤ k ∧ k ≤ 3) (hl : 0 ≤ lon ∧ lon < 360) :
+    season_arg k lon = (k : ℝ) * 90 - lon ∧
+    (0 < (k : ℝ) * 90 - lon → (k : ℝ) * 90 - lon < 180 → 0 < season_corr k lon) ∧
+    (-180 < (k : ℝ) * 90 - lon → (k : ℝ) * 90 - lon < 0 → season_corr k lon < 0) := by
+  have hkr : (0 : ℝ) ≤ k ∧ (k : ℝ) ≤ 3 := ⟨by exact_mod_cast hk.1, by exact_mod_cast hk.2⟩
+  have hpi := Real.pi_pos
+  have harg : season_arg k lon = (k : ℝ) * 90 - lon := by
+    unfold season_arg aNeg aSubF aAdd
+    have h1 : aToPositive lon = lon := by
+      unfold aToPositive plt
+      have : ¬ (lon < 0.0) := by norm_num; exact hl.1
+      simp only [this, decide_false]; rfl
+    rw [h1]
+    have h2 : aReduce (lon + -(ofInt k * 90.0)) = lon - k * 90 := by
+      rw [aReduce_of_abs_lt]
+      · unfold ofInt; norm_num; ring
+      · unfold ofInt; rw [abs_lt]; constructor <;> norm_num <;> nlinarith [hkr.1, hkr.2, hl.1, hl.2]
+    rw [h2, aReduce_of_abs_lt (by rw [abs_lt]; constructor <;> nlinarith [hkr.1, hkr.2, hl.1, hl.2])]
+    ring
+  refine ⟨harg, ?_, ?_⟩
+  · intro h0 h1
+    unfold season_corr psin pradians
+    rw [harg]
+    have : 0 < Real.sin (((k : ℝ) * 90 - lon) * (Real.pi / 180)) :=
+      Real.sin_pos_of_pos_of_lt_pi (by positivity) (by nlinarith)
+    norm_num; exact this
+  · intro h0 h1
+    unfold season_corr psin pradians
+    rw [harg]
+    have : Real.sin (((k : ℝ) * 90 - lon) * (Real.pi / 180)) < 0 :=
+      Real.sin_neg_of_neg_of_neg_pi_lt (by nlinarith) (by nlinarith)
+    norm_num; linarith
+
 /-- Loop post-condition (partial correctness, ANY solar-longitude function, ANY Epoch constructor):
     if `get_equinox_solstice` returns an instant `e`, there is an instant `eLast` — the last one at
     which the solar longitude was evaluated — such that the correction `corr = 58 sin(k·90° − λ(eLast))`
@@ -518,6 +556,13 @@ theorem rise_set_no_solution_iff (ejde : ℝ) (leap : Int) (lat lon alt : ℝ) (
       exact not_lt.mp (fun h => hR (hiff.mp h))
     simp only [t5, Bool.false_eq_true, if_false, hR, iff_false, not_false_eq_true, true_implies]
     exact ⟨by simp, ⟨_, rfl⟩⟩
+
+/-- The two instants handed to the Epoch constructor are symmetric about the transit: their mean is
+    `jtran` and the day length is `ω/180` days (`ω/360` before, `ω/360` after), for every result. -/
+theorem rise_symmetric (jt om c : ℝ) :
+    ((rise_set_args (jt, om, c)).1 + (rise_set_args (jt, om, c)).2) / 2 = jt ∧
+    (rise_set_args (jt, om, c)).2 - (rise_set_args (jt, om, c)).1 = om / 180 := by
+  unfold rise_set_args; constructor <;> norm_num <;> ring
 
 /-- The `acos` argument of `rise_set` is in range — no "math domain error" — under the explicit,
     decidable hypothesis `|φ| + 23.44° + 0.83° + dip ≤ 90°` (dip = 2.076·√height/60 degrees), for every
